@@ -140,7 +140,10 @@ func Alphabet(c Class, repl int32) []rune {
 	return rs
 }
 
-var invalidSeqs = []string{"\xff", "\xc3", "\xe2\x82", "\xf0\x9f\x98", "\x80", "\xc0\xaf", "\xed\xa0\x80", "\xf4\x90\x80\x80"}
+// (lead bytes cut off at every length - among them 0xEF, the lead byte of U+FFFD itself and of the
+// BOM -, stray continuation bytes, overlong forms, surrogates, beyond-range)
+var invalidSeqs = []string{"\xff", "\xc3", "\xe2\x82", "\xf0\x9f\x98", "\x80", "\xc0\xaf", "\xed\xa0\x80", "\xf4\x90\x80\x80",
+	"\xef", "\xef\xbf", "\xef\xbb", "\xe6\x97", "\xe6", "\xf0", "\xf0\x9f", "\xc2", "\xdf", "\xbf\xbd", "\xbd", "\xe0\x80\x80", "\xf8\x88\x80\x80\x80", "\xfe"}
 
 func GenInput(c Class, repl int32) *rapid.Generator[pbt.S] {
 	al := Alphabet(c, repl)
